@@ -167,9 +167,11 @@ func (s *Schema) Rels() []Rel {
 	}
 
 	sort.Slice(rels, func(i, j int) bool {
-		name1 := rels[i].FromType + rels[i].FromName
-		name2 := rels[j].FromType + rels[j].FromName
-		return name1 < name2
+		if rels[i].FromType != rels[j].FromType {
+			return rels[i].FromType < rels[j].FromType
+		}
+
+		return rels[i].FromName < rels[j].FromName
 	})
 
 	return rels
@@ -271,8 +273,14 @@ func (s *Schema) buildRels() {
 
 	for _, typ := range s.Types {
 		for _, rel := range typ.Rels {
-			relName := rel.String()
-			s.rels[relName] = rel.Normalize()
+			rel = rel.Normalize()
+			// The key has to be different for different relationships,
+			// which String does not guarantee ("a_b"."c" and "a"."b_c").
+			relName := fmt.Sprintf(
+				"%q %q %q %q",
+				rel.FromType, rel.FromName, rel.ToType, rel.ToName,
+			)
+			s.rels[relName] = rel
 		}
 	}
 }
